@@ -428,6 +428,22 @@ pub fn generate(ctx: &mut Ctx) {
             ctx.case("doc", &format!("pat {} {} {}", h(p), show_dict(&d), show_loc(&l)));
         }
     }
+    // 0b. scopes whose values themselves contain macros, pointing at themselves and at each other: the substituted text
+    //     is taken as it is (the property substitutes a tag's DISPLAY TEXT, once); an implementation that expands it
+    //     again must still come back
+    {
+        let mut d = Dict::new();
+        for (k, v) in [("a", "$a"), ("b", "<$c>"), ("c", "<$b>"), ("disMacro", "$disMacro ${a} $b"), ("navName", "Fan of $navName"), ("dis", "$dis")] {
+            d.insert(k.into(), Value::make_str(v));
+        }
+        let mut l = LocMap::new();
+        l.insert("k".into(), "$<k>".into());
+        l.insert("a".into(), "$a".into());
+        for p in ["$a", "${a}", "$b", "$c $b", "$disMacro", "$navName", "$<k>", "$<a> $a", "$dis$dis"] {
+            ctx.case("selfref", &format!("pat {} {} {}", h(p), show_dict(&d), show_loc(&l)));
+        }
+        ctx.case("selfref", &format!("dis {} {} -", show_dict(&d), show_loc(&l)));
+    }
     // 1. all 2^8 subsets of the display tags x value kinds
     let variants = ctx.n(8, 48);
     for mask in 0u32..256 {
